@@ -606,6 +606,10 @@ IDENTITY = {
     "std::boxed::Box::<T>::new",
     "std::option::Option::<T>::as_ref",
     "std::option::Option::<T>::as_mut",
+    "std::option::Option::<T>::as_deref",
+    "std::option::Option::<T>::as_deref_mut",
+    "std::option::Option::<T>::cloned",
+    "std::option::Option::<T>::copied",
     "std::option::Option::<T>::clone",
     "std::iter::IntoIterator::into_iter",
     "core::slice::<impl [T]>::iter",
@@ -699,6 +703,12 @@ def model_call(crate, fn, args, site, term=None):
         it = args[0]
         if it[0] == "enumerate":
             return ("opt", ("enumelem", it[1]))
+        if it[0] == "call" and it[2] and it[1].startswith(("std::collections::HashMap::", "std::collections::BTreeMap::")):
+            nm = it[1].rsplit("::", 1)[-1]
+            if nm in ("values", "into_values", "values_mut"):
+                return ("opt", mk_proj(("elem", it[2][0]), ("f", 1, "1")))  # the value of some entry of the map
+            if nm in ("keys", "into_keys"):
+                return ("opt", mk_proj(("elem", it[2][0]), ("f", 0, "0")))
         if it[0] == "agg" and it[1] == "array" and it[2] != "repeat" and len(it[3]) == 1:
             return ("opt", it[3][0])  # the only element of a one-element list (vec![x])
         return ("opt", ("elem", it))
